@@ -230,6 +230,7 @@ type c02item struct {
 	cwd   string // "" = root, "a"
 	paths []string
 	dirfd string // encoding name
+	place string // "" or the sysrun placement prefix of the pathname string(s)
 	line  string
 }
 
@@ -244,7 +245,7 @@ func init() {
 		spec := &mc.Spec{
 			Level: "exploration",
 			Rule: "one forest per execution (dirs a, b, a/c; files a/x, b/x, x; zero or one symlink at l or a/l over 10 target kinds, thorough: also both with a second link l2); in it every pathname of ≤ maxComps components over {a,b,c,x,l,.,..} × {relative, absolute} × {plain, trailing slash, doubled slash} " +
-				"plus /proc/self and /proc/thread-self aliases × cwd ∈ {root, a} × dirfd encoding ∈ {AT_FDCWD sign-extended, AT_FDCWD zero-extended, directory fd, directory fd with garbage in the upper half, closed fd} × every traced path syscall/flag word of the tier, " +
+				"plus /proc/self and /proc/thread-self aliases × cwd ∈ {root, a} × dirfd encoding ∈ {AT_FDCWD sign-extended, AT_FDCWD zero-extended, directory fd, directory fd with garbage in the upper half, closed fd} × every traced path syscall/flag word of the tier; for five of the names also × placement of the string in the tracee {ordinary, ending at an unmapped page, write-only page, execute-only page}, " +
 				"issued by a real tracee under runner/ptrace with a recording soft-ban policy. Oracle: the kernel's own resolution of the same (dirfd, pathname) in the harness (O_PATH[|O_NOFOLLOW] + readlink of /proc/self/fd), access class from the call and flags. " +
 				"non-trivial: the pathname is not already canonical; distinct = (forest, call, dirfd encoding, pathname, answer)",
 			Bound: map[string]any{"max_components": maxComps, "targets": targets,
@@ -351,6 +352,7 @@ func c02forestRun(x *mc.X, links map[string]string, calls []c02call, comps []str
 	var items []c02item
 	var body strings.Builder
 	second := []string{"b/x", "l", root + "/a/../b/x"} // second names of two-path calls
+	placed := map[string]bool{"a/x": true, "l": true, "l/x": true, "x": true, root + "//a/x": true}
 	for _, cwd := range []string{"", "a"} {
 		body.WriteString("C " + str(filepath.Join(root, cwd)) + "\n")
 		for ci := range calls {
@@ -370,32 +372,41 @@ func c02forestRun(x *mc.X, links map[string]string, calls []c02call, comps []str
 					if !filepath.IsAbs(name) && (e.name == "closed-fd" || e.name == "minus-one") && tier != "thorough" {
 						continue // relative to a dead descriptor the kernel resolves nothing (not judged)
 					}
-					ps := []string{name}
-					if len(c.args) == 2 {
-						ps = append(ps, second[len(items)%len(second)])
+					// where the pathname string lives in the tracee: ordinary memory, or (for a few names) a page that ends at an
+					// unmapped one, a write-only page, an execute-only page — the kernel reads all of them on the tracee's behalf
+					places := []string{""}
+					if placed[name] && (e.name == "atfdcwd" || e.name == "dirfd") {
+						places = append(places, "@edge", "@wo", "@xo")
 					}
-					argv := [6]string{"0", "0", "0", "0", "0", "0"}
-					for k, v := range c.extra {
-						argv[k] = v
-					}
-					for ai, a := range c.args {
-						if a.dirfdArg >= 0 {
-							argv[a.dirfdArg] = e.val
-							if ai == 1 {
-								// the second name is resolved against the *other* kind of base than the first
-								if e.name == "dirfd" || e.name == "dirfd-upper-garbage" {
-									argv[a.dirfdArg] = "-100"
-								} else {
-									argv[a.dirfdArg] = "3"
+					for _, place := range places {
+						ps := []string{name}
+						if len(c.args) == 2 {
+							ps = append(ps, second[len(items)%len(second)])
+						}
+						argv := [6]string{"0", "0", "0", "0", "0", "0"}
+						for k, v := range c.extra {
+							argv[k] = v
+						}
+						for ai, a := range c.args {
+							if a.dirfdArg >= 0 {
+								argv[a.dirfdArg] = e.val
+								if ai == 1 {
+									// the second name is resolved against the *other* kind of base than the first
+									if e.name == "dirfd" || e.name == "dirfd-upper-garbage" {
+										argv[a.dirfdArg] = "-100"
+									} else {
+										argv[a.dirfdArg] = "3"
+									}
 								}
 							}
+							argv[a.pathArg] = place + str(ps[ai])
 						}
-						argv[a.pathArg] = str(ps[ai])
+						it := c02item{call: c, cwd: cwd, paths: ps, dirfd: e.name}
+						it.place = place
+						it.line = fmt.Sprintf("X %d %s", c.nr, strings.Join(argv[:], " "))
+						fmt.Fprintf(&body, "M %d\n%s\n", len(items), it.line)
+						items = append(items, it)
 					}
-					it := c02item{call: c, cwd: cwd, paths: ps, dirfd: e.name}
-					it.line = fmt.Sprintf("X %d %s", c.nr, strings.Join(argv[:], " "))
-					fmt.Fprintf(&body, "M %d\n%s\n", len(items), it.line)
-					items = append(items, it)
 				}
 			}
 		}
@@ -506,14 +517,14 @@ func c02forestRun(x *mc.X, links map[string]string, calls []c02call, comps []str
 				}
 			}
 			if got == nil {
-				x.Failf("C02/policy-not-asked/"+kind, "links %v cwd=%q %s (%s) name %q [dirfd %s]: the policy was not asked about argument %d; kernel object %q", links, it.cwd, it.call.name, it.line, name, it.dirfd, ai, exp)
+				x.Failf("C02/policy-not-asked/"+kind, "links %v cwd=%q %s (%s) name %q [dirfd %s%s]: the policy was not asked about argument %d; kernel object %q", links, it.cwd, it.call.name, it.line, name, it.dirfd, it.place, ai, exp)
 				continue
 			}
 			if nontrivial {
-				x.Distinct(fmt.Sprint(links, it.call.name, it.dirfd, it.cwd, name, got.path))
+				x.Distinct(fmt.Sprint(links, it.call.name, it.dirfd, it.place, it.cwd, name, got.path))
 			}
 			if got.path != exp {
-				x.Failf("C02/wrong-object/"+kind, "links %v cwd=%q %s name %q [dirfd %s]: policy asked about %q, the kernel resolves to %q", links, it.cwd, it.call.name, name, it.dirfd, got.path, exp)
+				x.Failf("C02/wrong-object/"+kind, "links %v cwd=%q %s name %q [dirfd %s%s]: policy asked about %q, the kernel resolves to %q", links, it.cwd, it.call.name, name, it.dirfd, it.place, got.path, exp)
 				continue
 			}
 			if got.class != a.class && got.class != it.call.alt {
